@@ -64,4 +64,4 @@ Definition ex_tgt : hmap :=
 Example C18_nonvacuous :
   wf ex_src ex_tgt = true /\ tgt_silent ex_tgt = true /\ no_semicolon ex_src = true /\ no_multi_overflow ex_src ex_tgt = true
   /\ exists out, hitsound_copy [0;1;2;4;5;3]%nat [0;1;2;4;3;5]%nat ex_src ex_tgt = Some out /\ specb ex_src ex_tgt out = true.
-Proof. repeat split; try (vm_compute; reflexivity). eexists. split; vm_compute; reflexivity. Qed.
+Proof. repeat (match goal with |- _ /\ _ => split end); try (vm_compute; reflexivity). eexists. split; vm_compute; reflexivity. Qed.
